@@ -19,7 +19,10 @@ VARIABLE blk
 IU == InstUSmall
 PlugsInd == {EV(0), EV(1), SV(0), SV(1), Imp(SV(0), Bot), Ex(0, EV(1)), CMV(1),
              Imp(EV(0), Bot), MV(1, <<0>>, <<>>, <<>>, <<>>, <<>>), Mu(1, SV(0)),
-             Imp(Ex(0, EV(0)), Bot), Imp(Mu(0, SV(0)), SV(0)), Ex(1, Imp(EV(0), EV(1)))}
+             Imp(Ex(0, EV(0)), Bot), Imp(Mu(0, SV(0)), SV(0)), Ex(1, Imp(EV(0), EV(1))),
+             \* a metavariable constrained in the OTHER sort next to the variable with the same number (a pending
+             \* substitution must not be dropped on it)
+             App(MV(1, <<>>, <<0>>, <<>>, <<>>, <<>>), EV(0)), Imp(MV(1, <<0>>, <<>>, <<>>, <<>>, <<>>), SV(0))}
 PlugsInd2 == {EV(0), SV(0), CMV(1), Ex(1, EV(0))}
 \* bodies for implications a -> a and a -> (b -> a): rich in binders and pending substitutions
 BodyU == IF Quick THEN {p \in U1 : p.t \in {"es", "ss"} /\ Cardinality(MVIds(p)) <= 1 /\ p.g.t # "mv"}
